@@ -443,6 +443,23 @@ def Sub3(x: int, base: int = 10):
     return j.out
 
 
+@workflow.define
+def SubFail(x: int, fails: bool = False) -> int:
+    a = workflow.add(Node(x=x, tag=11, fail=fails), name="a")
+    b = workflow.add(Node(x=a.out, tag=12), name="b")
+    return b.out
+
+
+@workflow.define(outputs=["s", "r"])
+def NestedFail(x: int, inner_fails: bool = False):
+    """a nested workflow whose first job may fail, next to the independent chain r1 -> r2 -> r3 (added first)"""
+    r1 = workflow.add(Node(x=x, tag=1), name="r1")
+    r2 = workflow.add(Node(x=r1.out, tag=2), name="r2")
+    r3 = workflow.add(Node(x=r2.out, tag=3), name="r3")
+    s = workflow.add(SubFail(x=x, fails=inner_fails), name="s")
+    return s.out, r3.out
+
+
 @workflow.define(outputs=["s1", "s2", "r"])
 def Nested(x: int):
     """two sibling sub-workflows next to two regular jobs"""
